@@ -161,6 +161,7 @@ impl Storm {
         }
         for k in 0..cfg.n_venue {
             let solend = k % 3 == 1;
+            let drift = k % 3 == 2;
             let decimals = pick(&mut r, &[6u8, 6, 9, 8]);
             let m = w.add_mint(decimals, if k % 3 == 2 { TokKind::T22 } else { TokKind::Classic }).await;
             let ai: f64 = pick(&mut r, &[0.0, 0.5, 0.8, 0.9, 1.0]);
@@ -187,7 +188,17 @@ impl Storm {
             };
             let (liq, col) = if cfg.magnitude == 0 { (liq.min(1 << 30), col.min(1 << 30).max((liq > 0) as u64)) } else { (liq, col) };
             let px = PythPx { price: p, conf: cf, ema: p, ema_conf: cf, expo, publish_time: now, partial: 0 };
-            if solend {
+            if drift {
+                let mut c = marginfi::state::drift::DriftConfigCompact::default();
+                c.asset_weight_init = wi(ai);
+                c.asset_weight_maint = wi(am);
+                c.deposit_limit = deposit_limit;
+                c.total_asset_value_init_limit = init_limit;
+                c.oracle_max_age = max_age;
+                c.oracle_max_confidence = max_conf;
+                let cum: u128 = pick(&mut r, &[10_000_000_000u128, 10_000_000_001, 10_512_345_678, 13_000_000_000, 29_999_999_999]);
+                w.add_bank_drift(g, m, c, px, cum, pick(&mut r, &[0u16, 1, 7]), k as u64).await.expect("drift bank creation");
+            } else if solend {
                 let mut c = marginfi::state::solend::SolendConfigCompact::default();
                 c.asset_weight_init = wi(ai);
                 c.asset_weight_maint = wi(am);
